@@ -137,6 +137,19 @@ def _gen_case(seed, tier, index=0):
             opts["holders"] = ["Jane Doe"]
     if rng.chance(0.05):
         opts["holders"] = LONG_HOLDERS[: rng.randint(45, 60)]
+    awkward = rng.randrange(14)
+    if awkward == 0:
+        # one holder, several years, given as ready-made notices in ONE invocation (kept verbatim by the tool)
+        pfx, h = rng.pick(["Copyright", "SPDX-FileCopyrightText:", "\u00a9", "Copyright (C)"]), rng.pick(A.SAFE_HOLDERS)
+        opts["holders"] = [f"{pfx} {y} {h}" for y in rng.sample(["2017", "2019", "2021", "2024"], rng.randint(2, 3))]
+        opts.pop("prefix", None)
+        if rng.chance(0.7):
+            opts["merge_copyrights"] = True
+    elif awkward == 1:
+        # a contributor whose text ends in the comment terminator of some OTHER style: either refused or written so
+        # that the next run reads back what this one wrote
+        toks = [t for t in G.TERMINATORS if t != G.STYLES[style][2][2]]
+        opts["contributors"] = [rng.pick(A.CONTRIBUTORS) + " " + rng.pick(toks)]
     if rng.chance(0.15):
         opts["merge_copyrights"] = True
     if rng.chance(0.1):
@@ -147,6 +160,8 @@ def _gen_case(seed, tier, index=0):
     n = rng.randint(2, 5)
     clocks = _clocks(rng, n)
     case = _case(seed, style, opts, rng.pick(A.BODY_KINDS), name, n, clocks, hashseed=rng.randrange(8), extra_files=extra)
+    if awkward == 1:
+        case["may_refuse"] = True
     if rng.chance(0.2):
         _cross_seed(case, rng)
     if rng.chance(0.12):
@@ -289,6 +304,8 @@ def oracle(case, results):
         if rec.get("exit") != 0 and not stdout_died:
             if rec.get("exit") == 2 and nrep == 1:
                 return vs  # the combination is refused as a usage error: nothing to re-run
+            if case.get("may_refuse") and nrep == 1 and all(cur[p] == orig.get(p) for p in tracked):
+                return vs  # refused (the text could not be read back) and nothing written: nothing to re-run
             vs.append({"sig": f"C10/nonzero-exit/run{min(nrep, 2)}/{tag}", "detail": f"run {nrep}: exit={rec.get('exit')} stdout={rec.get('stdout', '')[-300:]} argv={st['argv']}"})
             return vs
         others = sorted(l for l, dd in (rec.get("diff") or {}).items() if l not in tracked and not (dd.get("before") and dd["before"][0] == "d") and not (dd.get("after") and dd["after"][0] == "d"))
